@@ -29,7 +29,17 @@ from nvlib.extract import TieBroken
 CLANG = "clang-14"
 
 
+_AST = {}
+
+
 def ast_function(bdir, relsrc, fn):
+    key = (bdir, relsrc, fn)
+    if key not in _AST:
+        _AST[key] = _ast_function(bdir, relsrc, fn)
+    return _AST[key]
+
+
+def _ast_function(bdir, relsrc, fn):
     src = os.path.join(E.REPO, relsrc)
     cmd = [CLANG, "-Xclang", "-ast-dump=json", "-Xclang", "-ast-dump-filter=" + fn, "-fsyntax-only",
            "-DHAVE_CONFIG_H", "-D_GNU_SOURCE", "-D" + E.GUARD, "-w"] + E.include_flags(bdir) + [src]
@@ -187,6 +197,447 @@ def assignments(fn, fields):
     return [t for _, t in sorted(out)]
 
 
+
+# ---- round 5: inventory of every write to object_t.uid / object_t.euid in the driver -------------------------------
+
+import re
+
+SCAN_ROOTS = ("src", "lib")
+SCAN_EXT = (".c", ".h", ".cpp", ".cc", ".hpp", ".y", ".l")
+MEMBER = re.compile(r"(->|\.)\s*(e?uid)\b")
+
+
+def blank_comments_strings(t):
+    """same-length text with comments, string and character literals replaced by blanks (newlines kept)"""
+    out = list(t)
+    i, n = 0, len(t)
+    while i < n:
+        c = t[i]
+        if c == "/" and i + 1 < n and t[i + 1] == "*":
+            j = t.find("*/", i + 2)
+            j = n if j < 0 else j + 2
+            for k in range(i, j):
+                if out[k] != "\n":
+                    out[k] = " "
+            i = j
+        elif c == "/" and i + 1 < n and t[i + 1] == "/":
+            j = t.find("\n", i)
+            j = n if j < 0 else j
+            for k in range(i, j):
+                out[k] = " "
+            i = j
+        elif c in "\"'":
+            j = i + 1
+            while j < n and t[j] != c and t[j] != "\n":
+                j += 2 if t[j] == "\\" else 1
+            j = min(j + 1, n)
+            for k in range(i + 1, j - 1):
+                if out[k] != "\n":
+                    out[k] = " "
+            i = j
+        else:
+            i += 1
+    return "".join(out)
+
+
+def function_spans(t):
+    """[(name | None, start, end)] of the top-level brace blocks of comment-free text; preprocessor lines are ignored
+    for the brace count; name = identifier before the parameter list that precedes the block"""
+    # blank preprocessor lines (with continuations) for the purpose of brace matching
+    lines = t.split("\n")
+    cont = False
+    for i, l in enumerate(lines):
+        if cont or l.lstrip().startswith("#"):
+            cont = l.rstrip().endswith("\\")
+            lines[i] = " " * len(l)
+        else:
+            cont = False
+    u = "\n".join(lines)
+    spans, depth, start, name = [], 0, 0, None
+    for i, c in enumerate(u):
+        if c == "{":
+            if depth == 0:
+                start = i
+                j = i - 1
+                while j >= 0 and u[j].isspace():
+                    j -= 1
+                name = None
+                if j >= 0 and u[j] == ")":
+                    d = 0
+                    while j >= 0:
+                        if u[j] == ")":
+                            d += 1
+                        elif u[j] == "(":
+                            d -= 1
+                            if d == 0:
+                                break
+                        j -= 1
+                    j -= 1
+                    while j >= 0 and u[j].isspace():
+                        j -= 1
+                    k = j
+                    while k >= 0 and (u[k].isalnum() or u[k] == "_"):
+                        k -= 1
+                    if k < j:
+                        name = u[k + 1:j + 1]
+            depth += 1
+        elif c == "}":
+            depth = max(0, depth - 1)
+            if depth == 0:
+                spans.append((name, start, i))
+    return spans
+
+
+def uid_access_functions():
+    """{(relative file, function name)} of every place in the driver sources whose text accesses a member called
+    uid / euid; a place that is not inside a function body (a macro, an initialiser) is reported as `<outside>`"""
+    found = {}
+    for root in SCAN_ROOTS:
+        for dp, dns, fns in os.walk(os.path.join(E.REPO, root)):
+            dns[:] = [d for d in dns if not d.startswith((".", "_build"))]
+            for f in sorted(fns):
+                if not f.endswith(SCAN_EXT):
+                    continue
+                p = os.path.join(dp, f)
+                try:
+                    raw = open(p, errors="replace").read()
+                except OSError:
+                    continue
+                if "uid" not in raw:
+                    continue
+                t = blank_comments_strings(raw)
+                hits = [m.start() for m in MEMBER.finditer(t)]
+                if not hits:
+                    continue
+                spans = function_spans(t)
+                rel = os.path.relpath(p, E.REPO)
+                for h in hits:
+                    fn = "<outside>"
+                    for name, a, b in spans:
+                        if a <= h <= b:
+                            fn = name or "<unnamed block>"
+                            break
+                    found.setdefault((rel, fn), 0)
+                    found[(rel, fn)] += 1
+    return found
+
+
+LEAVING = ("error", "bad_arg", "fatal")
+
+
+def leaves(n):
+    """does this statement (an if-branch) always end the function: its last statement is a return or a call that
+    does not come back"""
+    n = strip(n)
+    k = n.get("kind")
+    if k == "CompoundStmt":
+        ks = kids(n)
+        return bool(ks) and leaves(ks[-1])
+    if k == "ReturnStmt":
+        return True
+    if k == "CallExpr" and kids(n) and cx(kids(n)[0]) in LEAVING:
+        return True
+    if k == "IfStmt":
+        pk = kids(n)
+        return len(pk) >= 3 and leaves(pk[1]) and leaves(pk[2])
+    return False
+
+
+NOISE = ("debug_level", "trace_flags")
+RELEVANT = re.compile(r"uid|\bm?ret\b|master_ob|current_object|first_load|get_machine_state|creator_name|\bsp\b|\bob\b")
+
+
+def master_apply_name(n):
+    ks = kids(n)
+    if len(ks) >= 2 and cx(ks[0]) in ("apply_master_ob", "safe_apply_master_ob"):
+        return cx(ks[1]).strip('"')
+    return None
+
+
+def uid_writes_of(bdir, rel, fname):
+    """every write (assignment, compound assignment, ++/--, address taken) to a `userid_t *` member called uid/euid in
+    one function: [(offset, statement, master applies called before it, path: enclosing conditions and earlier guards)]"""
+    f = ast_function(bdir, rel, fname)
+    nodes = list(walk(f))
+    applies = sorted((off(n), master_apply_name(n)) for n, _ in nodes if n.get("kind") == "CallExpr" and master_apply_name(n))
+    ifs = [(off(n), n, path) for n, path in nodes if n.get("kind") == "IfStmt"]
+    out = []
+    for n, path in nodes:
+        if n.get("kind") != "MemberExpr" or n.get("name") not in ("uid", "euid"):
+            continue
+        if "userid" not in n.get("type", {}).get("qualType", ""):
+            continue
+        # climb over parentheses
+        i = len(path) - 1
+        while i >= 0 and path[i].get("kind") == "ParenExpr":
+            i -= 1
+        par = path[i] if i >= 0 else None
+        if par is not None and par.get("kind") == "ImplicitCastExpr" and par.get("castKind") == "LValueToRValue":
+            continue                                   # a read
+        if par is not None and par.get("kind") == "MemberExpr":
+            continue                                   # ob->uid->name: the pointer itself is read (arrow) ...
+        if par is not None and par.get("kind") in ("BinaryOperator", "CompoundAssignOperator"):
+            if par.get("kind") == "BinaryOperator" and par.get("opcode") != "=":
+                continue
+            if strip(kids(par)[0]) is not n:
+                continue                               # right-hand side
+        o = off(par if par is not None else n)
+        conds = []
+        chain = list(path)
+        for j, p in enumerate(chain):
+            if p.get("kind") == "IfStmt":
+                pk = kids(p)
+                nxt = chain[j + 1] if j + 1 < len(chain) else n
+                if len(pk) >= 2 and nxt is pk[1]:
+                    conds.append("if " + cx(pk[0]))
+                elif len(pk) >= 3 and nxt is pk[2]:
+                    conds.append("else " + cx(pk[0]))
+        guards = []
+        for io, inode, ipath in ifs:
+            if io >= o or inode in chain:
+                continue
+            pk = kids(inode)
+            t = cx(pk[0])
+            if any(x in t for x in NOISE) or not RELEVANT.search(t):
+                continue
+            # only guards that dominate the write: their parent chain must be a prefix of ours
+            if any(a not in chain for a in ipath if a.get("kind") in ("IfStmt", "WhileStmt", "ForStmt", "DoStmt", "SwitchStmt")):
+                continue
+            if len(pk) >= 2 and leaves(pk[1]) and not (len(pk) >= 3 and leaves(pk[2])):
+                guards.append("unless " + t)
+        out.append((o, cx(par if par is not None else n), [a for ao, a in applies if ao < o], guards + conds))
+    out.sort(key=lambda x: x[0])
+    return out
+
+
+def lean_list(xs):
+    return "[" + ", ".join(lean_str(x) for x in xs) + "]"
+
+
+def shape(fn, calls, variables=(), start=0, end=None, fields=("uid", "euid")):
+    """canonical statement list of a function in source order: if-conditions, writes to uid/euid members and to the
+    listed variables (also declarations with initialiser), the listed calls (full text), returns"""
+    items = []
+    for n, path in walk(fn):
+        o = off(n)
+        if o < start or (end is not None and o > end):
+            continue
+        k = n.get("kind")
+        if k == "IfStmt":
+            t = cx(kids(n)[0])
+            if any(x in t for x in NOISE) or any(m.get("kind") == "CallExpr" and kids(m) and cx(kids(m)[0]) == "__assert_fail"
+                                         for m, _ in walk(n)):
+                continue
+            items.append((o, "if " + t))
+        elif k == "BinaryOperator" and n.get("opcode") == "=":
+            lhs = strip(kids(n)[0])
+            if lhs.get("kind") == "MemberExpr" and lhs.get("name") in fields:
+                items.append((o, cx(n)))
+            elif lhs.get("kind") == "DeclRefExpr" and lhs["referencedDecl"]["name"] in variables:
+                if not any(p.get("kind") == "IfStmt" and kids(p) and any(q is n for q, _ in walk(kids(p)[0])) for p in path):
+                    items.append((o, cx(n)))
+        elif k == "VarDecl" and n.get("name") in variables and kids(n):
+            items.append((o, "decl " + n["name"] + " = " + cx(kids(n)[-1])))
+        elif k == "CallExpr" and kids(n) and cx(kids(n)[0]) in calls:
+            if not any(p.get("kind") == "IfStmt" and kids(p) and any(q is n for q, _ in walk(kids(p)[0])) for p in path):
+                # calls inside an if-condition are already part of the condition text
+                items.append((o, cx(n) if calls[cx(kids(n)[0])] else cx(kids(n)[0])))
+        elif k == "ReturnStmt":
+            items.append((o, "return"))
+    items.sort(key=lambda x: x[0])
+    return [t for _, t in items]
+
+
+def lean_shape(name, doc, items):
+    return "/-- %s -/\ndef %s : List String := [\n  " % (doc, name) + ",\n  ".join(lean_str(t) for t in items) + "]"
+
+
+def first_call(fn, callee):
+    offs = sorted(off(n) for n, _ in walk(fn) if n.get("kind") == "CallExpr" and kids(n) and cx(kids(n)[0]) == callee)
+    if not offs:
+        raise TieBroken("shape:" + callee, "call of %s not found" % callee)
+    return offs[0]
+
+
+def generate_round5(bdir):
+    L = []
+    # ---- inventory --------------------------------------------------------------------------------------------------
+    acc = uid_access_functions()
+    sites = []
+    readers = []
+    for (rel, fn) in sorted(acc):
+        if fn.startswith("<") or not rel.endswith(".c"):
+            # a macro / initialiser / header function touching uid or euid: nothing the model knows of
+            sites.append((rel, fn, "<%d access(es) outside a function body of a .c file>" % acc[(rel, fn)], [], []))
+            continue
+        try:
+            ws = uid_writes_of(bdir, rel, fn)
+        except TieBroken as e:
+            sites.append((rel, fn, "<not analysable: %s>" % e, [], []))
+            continue
+        if not ws:
+            readers.append((rel, fn))
+        for _, stmt, apps, conds in ws:
+            sites.append((rel, fn, stmt, apps, conds))
+    L.append("/-- one write to an object's uid / euid field somewhere in the driver -/\n"
+             "structure UidWrite where\n  file : String\n  fn : String\n  stmt : String\n"
+             "  /-- master applies called earlier in the same function (source order) -/\n  applies : List String\n"
+             "  /-- guards that dominate the statement: `unless c` = an earlier `if (c)` that leaves the function,\n"
+             "      `if c` / `else c` = enclosing branches -/\n  path : List String\n  deriving DecidableEq, Repr")
+    L.append("/-- EVERY write (assignment, compound assignment, increment, address taken) to a member called uid / euid of type\n"
+             "    userid_t* in src/ and lib/ (text scan of all sources for the member access, clang AST of each function found) -/\n"
+             "def uidWrites : List UidWrite := [\n  " +
+             ",\n  ".join("{ file := %s, fn := %s, stmt := %s,\n    applies := %s,\n    path := %s }" %
+                         (lean_str(a), lean_str(b), lean_str(c), lean_list(d), lean_list(e)) for a, b, c, d, e in sites) + "]")
+    # set_root_uid / set_backbone_uid RENAME an existing uid record in place (every holder of the record changes its name):
+    # who calls them, and under which conditions
+    ren = []
+    callre = re.compile(r"\b(set_root_uid|set_backbone_uid)\s*\(")
+    for root in SCAN_ROOTS:
+        for dp, dns, fns in os.walk(os.path.join(E.REPO, root)):
+            dns[:] = [d for d in dns if not d.startswith((".", "_build"))]
+            for fn in sorted(fns):
+                if not fn.endswith(SCAN_EXT):
+                    continue
+                pth = os.path.join(dp, fn)
+                try:
+                    raw = open(pth, errors="replace").read()
+                except OSError:
+                    continue
+                if "set_root_uid" not in raw and "set_backbone_uid" not in raw:
+                    continue
+                t = blank_comments_strings(raw)
+                spans = function_spans(t)
+                rel = os.path.relpath(pth, E.REPO)
+                for m in callre.finditer(t):
+                    f = None
+                    for name, a, b in spans:
+                        if a <= m.start() <= b:
+                            f = name or "<unnamed block>"
+                            break
+                    if f is None:
+                        continue            # prototype / definition head
+                    if f == m.group(1):
+                        continue
+                    ren.append((rel, f, m.group(1)))
+    ren_items = []
+    for rel, f, callee in sorted(set(ren)):
+        conds = ["<not analysable>"]
+        if rel.endswith(".c") and not f.startswith("<"):
+            try:
+                fa = ast_function(bdir, rel, f)
+                conds = []
+                for n, path in walk(fa):
+                    if n.get("kind") == "CallExpr" and kids(n) and cx(kids(n)[0]) == callee:
+                        chain = list(path) + [n]
+                        cs = []
+                        for j, pnode in enumerate(chain[:-1]):
+                            if pnode.get("kind") == "IfStmt":
+                                pk = kids(pnode)
+                                if len(pk) >= 2 and chain[j + 1] is pk[1]:
+                                    cs.append("if " + cx(pk[0]))
+                                elif len(pk) >= 3 and chain[j + 1] is pk[2]:
+                                    cs.append("else " + cx(pk[0]))
+                        conds.append(" && ".join(cs))
+            except TieBroken as e:
+                conds = ["<not analysable: %s>" % e]
+        for c in conds:
+            ren_items.append((rel, f, callee, c))
+    L.append("/-- every call of set_root_uid / set_backbone_uid (they rename a uid record IN PLACE) with its enclosing conditions -/\n"
+             "def uidRenamers : List (String × String × String × String) := [" +
+             ", ".join("(%s, %s, %s, %s)" % tuple(lean_str(x) for x in it) for it in ren_items) + "]")
+    L.append("/-- functions that read the fields without writing them -/\n"
+             "def uidReaders : List (String × String) := [" + ", ".join("(%s, %s)" % (lean_str(a), lean_str(b)) for a, b in readers) + "]")
+
+    # ---- interleaved shapes -----------------------------------------------------------------------------------------
+    f = ast_function(bdir, "lib/efuns/uids.c", "f_seteuid")
+    L.append(lean_shape("seteuidShape", "f_seteuid: conditions, calls, euid writes and returns in ONE source-ordered list",
+                        shape(f, {"apply_master_ob": True, "safe_apply_master_ob": True, "apply": True, "safe_apply": True,
+                                  "bad_arg": False, "push_object": True})))
+    f = ast_function(bdir, "lib/efuns/uids.c", "f_export_uid")
+    L.append(lean_shape("exportShape", "f_export_uid: conditions, error, uid writes in one source-ordered list",
+                        shape(f, {"error": True}, variables=("ob",))))
+    f = ast_function(bdir, "src/simulate.c", "set_master")
+    L.append(lean_shape("setMasterShape", "set_master: first load / reload branches, get_root_uid / get_bb_uid applies, uid = euid writes",
+                        shape(f, {"apply_master_ob": True, "safe_apply_master_ob": True, "set_backbone_uid": True,
+                                  "error": True}, variables=("first_load", "uid"))))
+    f = ast_function(bdir, "lib/lpc/object.c", "reload_object")
+    L.append(lean_shape("reloadShape", "reload_object: the euid reset and the create() call (tail of the function)",
+                        shape(f, {"call_create": True, "apply": True}, start=first_call(f, "remove_all_call_out"))))
+    f = ast_function(bdir, "src/simulate.c", "load_object")
+    L.append(lean_shape("loadTailShape", "load_object from get_empty_object to call_create: default uid BEFORE enter_object_hash, "
+                        "valid_object, init_object (= give_uid_to_object), then create()",
+                        shape(f, {"get_empty_object": False, "enter_object_hash": True, "apply_master_ob": True,
+                                  "safe_apply_master_ob": True, "destruct_object": True, "error": False, "init_object": True,
+                                  "give_uid_to_object": True, "call_create": True},
+                              start=first_call(f, "get_empty_object"), end=first_call(f, "call_create"))))
+    f = ast_function(bdir, "src/simulate.c", "clone_object")
+    L.append(lean_shape("cloneShape", "clone_object: tests, find_or_load_object, virtual branch, make_new_name, init_object, "
+                        "enter_object_hash, create() in source order",
+                        shape(f, {"error": True, "find_or_load_object": True, "object_visible": True, "load_virtual_object": True,
+                                  "get_empty_object": False, "make_new_name": True, "init_object": True,
+                                  "give_uid_to_object": True, "enter_object_hash": True, "call_create": True})))
+    f = ast_function(bdir, "lib/lpc/operator.c", "f_bind")
+    L.append(lean_shape("bindShape", "f_bind: same owner = nothing to do; bindability; master valid_bind (non-catching apply, 3 arguments: "
+                        "doer, old owner, new owner); refusal iff !MASTER_APPROVED = error; only then the new owner is set",
+                        [t for t in shape(f, {"apply_master_ob": True, "safe_apply_master_ob": True, "apply": True, "error": True},
+                                          fields=("owner",))
+                         if "func_ref" not in t and "hdr.args" not in t]))
+    # ---- make_new_name: the clone counter (`cloneSeq`) -----------------------------------------------------------------
+    f = ast_function(bdir, "src/simulate.c", "make_new_name")
+    items = []
+    for n, _ in walk(f):
+        k = n.get("kind")
+        if k == "VarDecl" and n.get("name") == "i":
+            items.append((off(n), "decl %s i = %s" % (n.get("storageClass", "auto"), cx(kids(n)[-1]) if kids(n) else "?")))
+        elif k == "CallExpr" and kids(n) and cx(kids(n)[0]) == "sprintf":
+            items.append((off(n), "sprintf(" + ", ".join(cx(a) for a in kids(n)[2:]) + ")"))
+        elif k == "UnaryOperator" and n.get("opcode") in ("++", "--") and cx(kids(n)[0]) == "i":
+            items.append((off(n), ("post" if n.get("isPostfix") else "pre") + n["opcode"] + " i"))
+        elif k in ("BinaryOperator", "CompoundAssignOperator") and n.get("opcode", "").endswith("=") and n.get("opcode") not in ("==", "!=", "<=", ">=") \
+                and cx(kids(n)[0]) == "i":
+            items.append((off(n), cx(n)))
+    items.sort()
+    L.append(lean_shape("makeNewNameShape", "make_new_name: one static counter starting at 1, name = <str>#<counter>, incremented once per call",
+                        [t for _, t in items]))
+    # ---- destruct_object: the simul_efun refusal and the vital-object branch (master reload) ------------------------------
+    f = ast_function(bdir, "src/simulate.c", "destruct_object")
+    keep = ("master_ob", "simul_efun_ob", "vital_obj_name", "new_ob")
+    sh = [t for t in shape(f, {"set_master": True, "set_simul_efun": True, "error": True}, variables=("new_ob", "vital_obj_name"))
+          if "config_str" not in t]
+    L.append(lean_shape("destructVitalShape", "destruct_object: what concerns the master / simul_efun object - the refusal to destruct the "
+                        "simul_efun object while a master exists, the reload of a vital object through load_object (on behalf of the "
+                        "caller: its euid test) followed by set_master / set_simul_efun",
+                        [t for t in sh if any(x in t for x in keep) or t.startswith(("load_object", "set_master", "set_simul_efun"))
+                         or "Cannot destruct simul_efun" in t or "vital object" in t]))
+    # ---- error texts the model renders (canonical form of the harness: newline dropped, blanks -> `_`) ---------------------
+    def err_text(relsrc, fn, needle):
+        ff = ast_function(bdir, relsrc, fn)
+        for n, _ in walk(ff):
+            if n.get("kind") == "CallExpr" and kids(n) and cx(kids(n)[0]) == "error" and len(kids(n)) > 1:
+                t = cx(kids(n)[1])
+                if needle in t:
+                    t = t.strip('"')
+                    if t.endswith("\\n"):
+                        t = t[:-2]
+                    return t.replace(" ", "_")
+        raise TieBroken("errtext:" + fn, "error text containing `%s` not found in %s" % (needle, fn))
+    L.append("/-- the driver's error texts behind the model's `Err` outcomes, in the harness's canonical form -/\n"
+             "def errTexts : List String := [" + ", ".join(lean_str(x) for x in [
+                 err_text("src/simulate.c", "load_object", "no effective user"),
+                 err_text("src/simulate.c", "clone_object", "without effective UID"),
+                 err_text("lib/efuns/uids.c", "f_export_uid", "export uid 0"),
+                 err_text("src/simulate.c", "destruct_object", "simul_efun_object"),
+                 err_text("lib/lpc/operator.c", "f_bind", "Permission of binding")]) + "]")
+    f = ast_function(bdir, "src/simulate.c", "init_object")
+    L.append(lean_shape("initObjectShape", "init_object: nothing but give_uid_to_object",
+                        shape(f, {"give_uid_to_object": True})))
+    f = ast_function(bdir, "src/simulate.c", "load_virtual_object")
+    L.append(lean_shape("loadVirtualShape", "load_virtual_object: compile_object apply, object or nothing; no uid is given",
+                        shape(f, {"apply_master_ob": True, "safe_apply_master_ob": True, "give_uid_to_object": True, "init_object": True})))
+    return L
+
+
 def generate(bdir, t_number):
     L = []
     cur_atoms = {"current_object": "cur", "current_object==master_ob": "curIsMaster", "current_object->euid": "curEuid"}
@@ -301,4 +752,5 @@ def generate(bdir, t_number):
     items.sort()
     L.append("/-- give_uid_to_object: conditions, uid/euid/creator_name assignments and returns in source order -/\n"
              "def giveUidShape : List String := [\n  " + ",\n  ".join(lean_str(t) for _, t in items) + "]")
+    L += generate_round5(bdir)
     return "\n\n".join(L) + "\n"
